@@ -337,6 +337,10 @@ func (fi *funcInstr) stmts(list []ast.Stmt) []ast.Stmt {
 			fi.exprs(t.Assign)
 			fi.clauses(t.Body)
 		case *ast.SelectStmt:
+			if wake {
+				out = append(out, callStmt("Blocking"))
+				in.needSim = true
+			}
 			for _, c := range t.Body.List {
 				cc := c.(*ast.CommClause)
 				cc.Body = fi.stmts(cc.Body)
@@ -362,7 +366,7 @@ func (fi *funcInstr) stmts(list []ast.Stmt) []ast.Stmt {
 		case *ast.SendStmt:
 			fi.exprs(t)
 			if wake {
-				out = append(out, s, callStmt("Woke"))
+				out = append(out, callStmt("Blocking"), s, callStmt("Woke"))
 				in.rep.WakeSites++
 				in.needSim = true
 				in.count++
@@ -393,7 +397,7 @@ func (fi *funcInstr) stmts(list []ast.Stmt) []ast.Stmt {
 					case *ast.ReturnStmt, *ast.DeferStmt:
 						in.rep.Warnings = append(in.rep.Warnings, fmt.Sprintf("%s:%s: channel receive inside return/defer statement has no wake point", in.relFile, fi.fname))
 					default:
-						out = append(out, s, callStmt("Woke"))
+						out = append(out, callStmt("Blocking"), s, callStmt("Woke"))
 						in.rep.WakeSites++
 						in.needSim = true
 						in.count++
